@@ -386,6 +386,42 @@ func checkC18All(c C18Case) Outcome {
 			return out
 		}
 	}
+	if c.Cmd == "compare" && !over {
+		// every report pairs the operand at the offset named by a file with the regex of that very file
+		want := map[string]bool{}
+		for _, f := range c.Files {
+			m := reAllFile.FindStringSubmatch(f)
+			if m == nil || (m[1] != "932100" && m[1] != "932101") {
+				continue
+			}
+			cur := "old-0"
+			if m[2] != "" {
+				n, _ := strconv.ParseUint(m[2], 10, 64)
+				cur = fmt.Sprintf("old-%d", n)
+			}
+			if m[1] == "932101" {
+				cur = "old-932101"
+			}
+			want[cur+" <- content_of_"+strings.NewReplacer("-", "_", ".", "_").Replace(f)] = true
+		}
+		got := map[string]bool{}
+		for _, m := range regexp.MustCompile(`current:\s+(\S+)\s+~[^\n]*\ngenerated:\s+(\S+)`).FindAllStringSubmatch(r.Stdout, -1) {
+			got[m[1]+" <- "+m[2]] = true
+		}
+		out.Detail["reports"], out.Detail["expected_reports"] = fmt.Sprint(got), fmt.Sprint(want)
+		for k := range want {
+			if !got[k] {
+				out.Violation = "compare --all does not report `" + k + "` (the file's own id and chain offset)"
+				return out
+			}
+		}
+		for k := range got {
+			if !want[k] {
+				out.Violation = "compare --all reports `" + k + "`: the operand of another chain offset than the file names"
+				return out
+			}
+		}
+	}
 	out.NonTrivial = over || len(c.Files) >= 2
 	out.Key = fmt.Sprint(c.Cmd, c.Files)
 	out.Sample = map[string]any{"cmd": c.Cmd + " --all", "files": c.Files, "exit": r.Exit}
